@@ -14,6 +14,11 @@ from .core import Unsupported
 from . import alg, extract
 
 
+class MockMissing(Unsupported, AttributeError):
+    """a receiver attribute the contract does not provide: undecided when it propagates; an AttributeError for code that probes with hasattr / try-except
+    (the attribute IS absent on the receiver)."""
+
+
 class Mock:
     """Receiver object whose attributes are exactly those given by the contract."""
 
@@ -26,7 +31,7 @@ class Mock:
     def __getattr__(self, name):
         if name.startswith("__") and name.endswith("__"):
             raise AttributeError(name)
-        raise Unsupported(f"{object.__getattribute__(self, '_Mock__name')}.{name} is not provided by the contract")
+        raise MockMissing(f"{object.__getattribute__(self, '_Mock__name')}.{name} is not provided by the contract")
 
     def __setattr__(self, name, value):
         object.__getattribute__(self, "_Mock__log").append((name, value))
